@@ -11,9 +11,9 @@
    flattened JSON; and corollaries with the Gallina JSON model in place of the
    JSON hypothesis. *)
 From Coq Require Import Lia.
-From Model Require Import Jws.
-From Gen Require Import Tables.
 From Model Require Import Json.
+From Model Require Import Jws JwsJson.
+From Gen Require Import Tables.
 From Proofs Require Import B64Proofs IntCodecProofs JsonProofs JwsProofs C03Proofs JwsJsonProofs.
 Open Scope N_scope.
 
